@@ -32,6 +32,10 @@ pub fn check(c: &Case, cs: &mut CaseStats) -> Result<(), String> {
     let n = c.n();
     let boxm = c.box_measure();
     let vi = obs::integrator(c, None);
+    let unresolvable = crate::refcmp::unresolvable(c);
+    if unresolvable {
+        cs.label("unresolvable-arrangement");
+    }
     let mut tol_sum = 1e-11 * boxm;
     let mut kmax: f64 = 1.;
     let mut tol_cell = vec![0.; n];
@@ -77,6 +81,13 @@ pub fn check(c: &Case, cs: &mut CaseStats) -> Result<(), String> {
         for (i, v) in vols.iter().enumerate() {
             // strictly positive up to rounding: a cell thinner than the rounding error of the
             // decomposition (tight clusters) may come out as a tiny non-positive number
+            if !v.is_finite() {
+                return Err(format!("{name}: cell {i} has a non-finite measure {v}"));
+            }
+            if unresolvable {
+                // ill-posed input (refcmp::unresolvable): only finiteness is claimed
+                continue;
+            }
             if !(v.is_finite() && *v > -tol_cell[i]) {
                 return Err(format!("{name}: cell {i} has measure {v:e} (must be finite and positive; rounding allowance {:e})", tol_cell[i]));
             }
@@ -84,6 +95,9 @@ pub fn check(c: &Case, cs: &mut CaseStats) -> Result<(), String> {
                 cs.count("cells_nonpositive_within_rounding", 1);
             }
             tot += v;
+        }
+        if unresolvable {
+            continue;
         }
         let diff = (tot - boxm).abs();
         cs.max("tile_diff_over_tol", diff / tol_sum);
@@ -99,7 +113,7 @@ pub fn check(c: &Case, cs: &mut CaseStats) -> Result<(), String> {
     }
     let asp = c.max_active_width() / c.min_active_width();
     let off = (0..c.d()).map(|k| c.anchor[k].abs() / c.width[k]).fold(0., f64::max);
-    if n >= 2 && (c.periodic || c.dim < 3 || off > 2. || asp >= 8.) {
+    if n >= 2 && !unresolvable && (c.periodic || c.dim < 3 || off > 2. || asp >= 8.) {
         cs.nt();
     }
     cs.count("cells", n as u64);
